@@ -16,6 +16,11 @@ pub fn main_with(find: &dyn Fn(&str) -> Option<PropDef>) {
     runner::install_panic_hook();
     let cmd = args[1].as_str();
     let id = args[2].as_str();
+    if cmd == "serve" {
+        // line based server for differential checks across builds (C09, C11)
+        crate::serve::serve_main();
+        return;
+    }
     if cmd == "selftest" {
         std::process::exit(crate::refmodel::selftest());
     }
@@ -27,6 +32,8 @@ pub fn main_with(find: &dyn Fn(&str) -> Option<PropDef>) {
         }
     };
     let tier = Tier::parse(&arg(&args, "--tier").or_else(|| std::env::var("VERIF_TIER").ok()).unwrap_or("quick".into()));
+    // some checks size their per-case work by the tier
+    std::env::set_var("MVV_TIER", tier.name());
     let seed: u64 = arg(&args, "--seed")
         .or_else(|| std::env::var("VERIF_SEED").ok())
         .and_then(|s| s.trim().parse::<i128>().ok())
